@@ -2,7 +2,7 @@
     Model: Model/C14_Pheno.v (mirrors G_E_Phenotyping.phenotype/set_h2/set_H2, TruePhenotyping.phenotype,
     MeanPhenotypicBreedingValue.estimate, TrueBreedingValue.estimate). *)
 From Coq Require Import String Permutation Sorted Lqa.
-From PV Require Import Lib.Common Model.C14_Pheno Proofs.C14_Pheno Model.C14_Session Proofs.C14_Session.
+From PV Require Import Lib.Common Model.C14_Pheno Proofs.C14_Pheno Model.C14_Session Proofs.C14_Session Gen.C14_Kernel Proofs.C14_Kernel Model.C14_Alias Proofs.C14_Alias.
 Local Open Scope Q_scope.
 
 (** A simulated trial returns exactly one record per taxon, environment and replicate, each carrying that taxon's
@@ -312,6 +312,196 @@ Theorem C14_session_cached_values_refuted :
   pheno_obs_cached demo_state s1 [[0]; [0]; [0]] (false, ["y"%string], false) <> pheno_obs s1 [[0]; [0]; [0]] (false, ["y"%string], false).
 Proof. exact cached_values_refuted. Qed.
 Print Assumptions C14_session_cached_values_refuted.
+
+(** * Kernel expressions regenerated from the CURRENT source (Gen/C14_Kernel.v is rewritten by harness/translate/c14_kernel.py
+    on every run from G_E_Phenotyping.py, TruePhenotyping.py, MeanPhenotypicBreedingValue.py, TrueBreedingValue.py).
+
+    They are the expressions the model is built from: the record formula and its association, the block labels env+1 / rep+1,
+    the loop headers zip(range(nenv), nrep) / range(env_nrep), the refusal test len(nrep) < nenv, which variance parameter
+    scales which effect, the label columns, the generated TaxonNN / TraitN names (prefix, index i+1, width ceil(log10 n)+1, both
+    protocols), (1-h2)/h2*var for both heritability setters, the nenv setter's re-broadcast test and numpy.full arguments, the
+    nrep and variance setters' numpy.full arguments, TruePhenotyping's group column test, TrueBreedingValue's argument, and for
+    the estimate: the group-by key test, dropna / as_index / the aggregation function, both from_numpy argument lists and the
+    hash join (key, destination row, source row). *)
+Theorem C14_kernel_is_model :
+  (forall m e r x, k_value m e r x = m + e + r + x) /\ (forall v e r x, add_effects v e r x = zip4 k_value v e r x) /\
+  (forall nenv nrep, map snd (k_env_loop nenv nrep) = firstn nenv nrep) /\
+  (forall nenv nrep, map fst (k_env_loop nenv nrep) = seq 0 (Nat.min nenv (length nrep))) /\
+  (forall k, k_rep_loop k = seq 0 k) /\
+  (forall ei : nat, k_env_label (Z.of_nat ei) = (1 + Z.of_nat ei)%Z) /\ (forall ri : nat, k_rep_label (Z.of_nat ri) = (1 + Z.of_nat ri)%Z) /\
+  (forall (attr : list nat) (nenv : nat), k_nrep_short (Z.of_nat (length attr)) (Z.of_nat nenv) = (length attr <? nenv)%nat) /\
+  (forall n t taxa grp gvm nenv attr sde sdr sdx flat,
+     phenotype n t taxa grp gvm nenv attr sde sdr sdx flat =
+     if k_nrep_short (Z.of_nat (length attr)) (Z.of_nat nenv) then None
+     else match parse_envs (map snd (k_env_loop nenv attr)) n t flat with
+          | Some (ds, []) => Some (env_blocks (labels_or_auto "Taxon"%string n taxa) (grp_col n grp) gvm sde sdr sdx (k_env_label 0) ds)
+          | _ => None
+          end) /\
+  (forall A (a b c : A), k_effect_sd A a b c = (a, b, c)) /\ (forall tn, pheno_cols tn = (k_label_cols ++ tn)%list) /\
+  (forall n, gen_labels k_ge_taxa_prefix k_ge_taxa_width k_ge_taxa_index n = labels_or_auto "Taxon"%string n None) /\
+  (forall n, gen_labels k_ge_trait_prefix k_ge_trait_width k_ge_trait_index n = labels_or_auto "Trait"%string n None) /\
+  (forall n, gen_labels k_tp_taxa_prefix k_tp_taxa_width k_tp_taxa_index n = labels_or_auto "Taxon"%string n None) /\
+  (forall n, gen_labels k_tp_trait_prefix k_tp_trait_width k_tp_trait_index n = labels_or_auto "Trait"%string n None) /\
+  (forall h v, k_h2_err h v = h2_err h v) /\ (forall h v, k_H2_err h v = h2_err h v) /\
+  (forall (nenv' : nat) (attr : list nat), attr <> [] ->
+     set_nenv nenv' attr = if k_nenv_rebroadcast true (Z.of_nat (length attr)) (Z.of_nat nenv') (uniform attr)
+                           then k_nenv_full nenv' (hd 0%nat attr) else attr) /\
+  (forall nenv k, k_nrep_full nenv k = nrep_vec nenv (NScalar k)) /\
+  (forall (s : state) (k : nat), k <> 0%nat -> s_nrep (fst (step s (OSetNrep (NScalar k)))) = k_nrep_full (s_nenv s) k) /\
+  (forall t, var_vec t VNone = k_var_env_none t /\ var_vec t VNone = k_var_rep_none t /\ var_vec t VNone = k_var_err_none t) /\
+  (forall t q, var_vec t (VScalar q) = k_var_env_scalar t q /\ var_vec t (VScalar q) = k_var_rep_scalar t q /\ var_vec t (VScalar q) = k_var_err_scalar t q) /\
+  (forall (grp : option (list Z)) tn,
+     true_cols grp tn = ("taxa"%string :: (if k_tp_has_grp_col (is_none grp) then ["taxa_grp"%string] else []) ++ tn)%list) /\
+  (forall A (ptobj gtobj : A), k_true_bv_arg A ptobj gtobj = gtobj) /\
+  (k_dropna = false /\ k_as_index = false /\ k_agg = "mean"%string) /\
+  (forall ug, k_by_grp ug true = ug /\ k_by_grp ug false = false) /\
+  (forall ug hg tcols names rows,
+     estimate ug hg tcols names rows None =
+     match resolve tcols names with
+     | None => None
+     | Some sel =>
+       if ug && negb hg then None else
+       let a := agg (k_by_grp ug true) sel rows in
+       Some (k_est_nogt_out _ _ _ _ (map (fun kv => fst (fst kv)) a) (if ug then Some (map (fun kv => grp_code (snd (fst kv))) a) else None) tcols
+                            (map (fun kv => Some (snd kv)) a))
+     end) /\
+  (forall ug hg tcols names rows gtx gtg,
+     estimate ug hg tcols names rows (Some (Some gtx, gtg)) =
+     match resolve tcols names with
+     | None => None
+     | Some sel => if ug && negb hg then None else Some (k_est_gt_out _ _ _ _ gtx gtg tcols (join gtx (agg (k_by_grp ug false) sel rows)))
+     end) /\
+  (forall (i : nat) (x : str) (a : list (key * list Q)),
+     lookup_last x a = match last_index x (map (fun kv => fst (fst kv)) a) with
+                       | Some ix => nth_error (map snd a) (Z.to_nat (k_join_src (Z.of_nat i) (Z.of_nat ix)))
+                       | None => None
+                       end).
+Proof.
+  exact (conj k_value_model (conj add_effects_kernel (conj k_env_loop_counts (conj k_env_loop_indices (conj k_rep_loop_model
+        (conj k_env_label_model (conj k_rep_label_model (conj k_nrep_short_model (conj phenotype_guard_kernel
+        (conj k_effect_sd_model (conj k_label_cols_model (conj k_ge_taxa_labels (conj k_ge_trait_labels (conj k_tp_taxa_labels (conj k_tp_trait_labels
+        (conj k_h2_err_model (conj k_H2_err_model (conj set_nenv_kernel (conj k_nrep_full_model (conj step_set_nrep_kernel
+        (conj k_var_none_model (conj k_var_scalar_model (conj k_tp_cols_model (conj k_true_bv_arg_model
+        (conj k_groupby_model (conj k_by_grp_model (conj estimate_nogt_kernel (conj estimate_gt_kernel lookup_last_index)))))))))))))))))))))))))))).
+Qed.
+Print Assumptions C14_kernel_is_model.
+
+(** One record per cell, stated about the generated expressions themselves: the call is not refused exactly when the source's
+    test [len(nrep) < nenv] is false; the environments visited are 0..nenv-1 with the replicate counts the source's loop header
+    pairs with them; replicate ri is one of those the source's inner loop visits; the cell labelled by the source's label
+    expressions (env+1, rep+1) holds exactly [n] records, the i-th carrying taxon i's labels and the source's record formula
+    applied to its true value and the three effects, each scaled by the parameter the source builds its covariance from. *)
+Theorem C14_kernel_one_record_per_cell : forall n t taxa grp gvm nenv nrep sde sdr sdx flat recs,
+  phenotype n t taxa grp gvm nenv nrep sde sdr sdx flat = Some recs ->
+  labels_ok n taxa grp -> length gvm = n ->
+  let tx := labels_or_auto "Taxon"%string n taxa in
+  let tg := grp_col n grp in
+  let nreps := map snd (k_env_loop nenv nrep) in
+  let sds := k_effect_sd _ sde sdr sdx in
+  k_nrep_short (Z.of_nat (length nrep)) (Z.of_nat nenv) = false /\
+  map fst (k_env_loop nenv nrep) = seq 0 nenv /\
+  exists ds, parse_envs nreps n t flat = Some (ds, []) /\ map (fun ed : envdraw => length (snd ed)) ds = nreps /\
+    length recs = (n * list_sum nreps)%nat /\
+    (forall ei zenv rs ri zr ze, nth_error ds ei = Some (zenv, rs) -> nth_error rs ri = Some (zr, ze) ->
+       In ri (k_rep_loop (length rs)) /\
+       let cell := filter (cell_is (k_env_label (Z.of_nat ei)) (k_rep_label (Z.of_nat ri))) recs in
+       length cell = n /\
+       forall i x g v er, nth_error tx i = Some x -> nth_error tg i = Some g -> nth_error gvm i = Some v -> nth_error ze i = Some er ->
+         nth_error cell i = Some (x, g, k_env_label (Z.of_nat ei), k_rep_label (Z.of_nat ri),
+                                  zip4 k_value v (scale (fst (fst sds)) zenv) (scale (snd (fst sds)) zr) (scale (snd sds) er))).
+Proof. exact kernel_cells. Qed.
+Print Assumptions C14_kernel_one_record_per_cell.
+
+(** The error variance the source's set_h2 / set_H2 expressions write calibrates genetic / (genetic + error) variance to the target. *)
+Theorem C14_kernel_h2_calibration : forall v h : Q, 0 < v -> 0 < h -> h <= 1 ->
+  heritability v (k_h2_err h v) == h /\ heritability v (k_H2_err h v) == h.
+Proof. exact kernel_h2_calibration. Qed.
+Print Assumptions C14_kernel_h2_calibration.
+
+(** An integer nrep as the source's nrep setter stores it is re-broadcast to the new number of environments by the source's nenv
+    setter (its test and its numpy.full arguments). *)
+Theorem C14_kernel_nenv_rebroadcast : forall nenv0 k nenv' : nat, (0 < nenv0)%nat ->
+  let attr := k_nrep_full nenv0 k in
+  (if k_nenv_rebroadcast true (Z.of_nat (length attr)) (Z.of_nat nenv') (uniform attr) then k_nenv_full nenv' (hd 0%nat attr) else attr)
+  = k_nrep_full nenv' k.
+Proof. exact kernel_nenv_rebroadcast. Qed.
+Print Assumptions C14_kernel_nenv_rebroadcast.
+
+(** Alignment stated about the generated expressions: with a genotype matrix the output is the source's from_numpy argument list
+    (genotype labels, genotype groups, trait columns, joined rows); the means are grouped by the taxon label alone (the source's
+    key test is false when a genotype matrix is given); the output row the source writes for the i-th genotype label
+    ([k_join_dst]) is the row of means the source reads ([k_join_src]) at the index its hash table holds for the source's key. *)
+Theorem C14_kernel_estimate_alignment : forall ug hg tcols names rows gtx gtg o,
+  estimate ug hg tcols names rows (Some (Some gtx, gtg)) = Some o ->
+  exists sel, resolve tcols names = Some sel /\
+    let a := agg (k_by_grp ug false) sel rows in
+    exists m, o = k_est_gt_out _ _ _ _ gtx gtg tcols m /\ length m = length gtx /\
+    map fst a = keys_of false rows /\
+    forall i x, nth_error gtx i = Some x -> forall ix,
+      nth_error m (Z.to_nat (k_join_dst (Z.of_nat i) ix)) =
+      Some (match last_index (k_join_key i x) (map (fun kv => fst (fst kv)) a) with
+            | Some j => nth_error (map snd a) (Z.to_nat (k_join_src (Z.of_nat i) (Z.of_nat j)))
+            | None => None
+            end).
+Proof. exact kernel_estimate_alignment. Qed.
+Print Assumptions C14_kernel_estimate_alignment.
+
+(** Without a genotype matrix the group column is a key exactly when it was asked for, and the output is the source's
+    from_numpy argument list (group keys' labels, their group codes, trait columns, the means). *)
+Theorem C14_kernel_estimate_groups : forall ug hg tcols names rows o,
+  estimate ug hg tcols names rows None = Some o ->
+  exists sel, resolve tcols names = Some sel /\
+    let a := agg (k_by_grp ug true) sel rows in
+    map fst a = keys_of ug rows /\
+    o = k_est_nogt_out _ _ _ _ (map (fun kv => fst (fst kv)) a) (if ug then Some (map (fun kv => grp_code (snd (fst kv))) a) else None) tcols
+                       (map (fun kv => Some (snd kv)) a).
+Proof. exact kernel_estimate_groups. Qed.
+Print Assumptions C14_kernel_estimate_groups.
+
+(** Scale covariance (the generators run every trial at scales 2^-40 .. 2^20): the source's record formula is homogeneous, the
+    error variance the source's heritability setters write is proportional to the genetic variance ... *)
+Theorem C14_kernel_scale_covariance : forall c m e r x h v : Q, ~ h == 0 ->
+  k_value (c * m) (c * e) (c * r) (c * x) == c * k_value m e r x /\
+  k_h2_err h (c * v) == c * k_h2_err h v /\ k_H2_err h (c * v) == c * k_H2_err h v.
+Proof. exact kernel_scale_covariance. Qed.
+Print Assumptions C14_kernel_scale_covariance.
+
+(** ... so the value vector of every record of a trial whose true values and standard deviations are multiplied by [c] (same
+    draws) is [c] times the value vector of the original record. *)
+Theorem C14_record_scale_covariance : forall (c : Q) (v sde sdr sdx ze zr zx : list Q),
+  qlist_eq (add_effects (map (Qmult c) v) (scale (map (Qmult c) sde) ze) (scale (map (Qmult c) sdr) zr) (scale (map (Qmult c) sdx) zx))
+           (map (Qmult c) (add_effects v (scale sde ze) (scale sdr zr) (scale sdx zx))).
+Proof. exact record_scale. Qed.
+Print Assumptions C14_record_scale_covariance.
+
+(** * Aliasing of the returned tables (Model/C14_Alias.v: a store of label arrays; a population holds the location of its taxa array).
+    The table of G_E_Phenotyping.phenotype is built by numpy.concatenate: a write into its taxa column never reaches an array
+    that existed before the call ... *)
+Theorem C14_ge_table_write_isolated : forall (h : heap) (n : nat) (taxa : option nat) (k i : nat) (v : str) (l : nat), (l < length h)%nat ->
+  let '(h', c) := ge_taxa_column h n taxa k in hread (hwrite h' c i v) l = hread h l.
+Proof. exact ge_column_isolated. Qed.
+Print Assumptions C14_ge_table_write_isolated.
+
+(** ... the same holds for TruePhenotyping.phenotype when the labels are generated (guard: the population has no taxa array) ... *)
+Theorem C14_true_table_write_isolated_partial : forall (h : heap) (n i : nat) (v : str) (l : nat), (l < length h)%nat ->
+  let '(h', c) := tp_taxa_column h n None in hread (hwrite h' c i v) l = hread h l.
+Proof. exact tp_column_isolated_generated. Qed.
+Print Assumptions C14_true_table_write_isolated_partial.
+
+(** ... but with explicit labels the column of the TruePhenotyping table IS the population's array (known finding
+    C14-truepheno-table-shares-labels): a write into the table changes the labels of the population. *)
+Theorem C14_true_table_write_isolated_refuted :
+  exists (h : heap) (l i : nat) (v : str), (l < length h)%nat /\
+    let '(h', c) := tp_taxa_column h 2 (Some l) in hread (hwrite h' c i v) l <> hread h l.
+Proof. exact tp_column_aliases. Qed.
+Print Assumptions C14_true_table_write_isolated_refuted.
+
+(** non-vacuity of the kernel and aliasing statements: a non-empty store and a valid location; an integer nrep stored for two
+    environments; a target in (0,1] with a positive variance *)
+Example C14_kernel_hyps_satisfiable :
+  (0 < length [["b"; "a"]%string])%nat /\ (0 < 2)%nat /\ k_nrep_full 2 3 <> [] /\ 0 < 1 # 2 /\ (1 # 2) <= 1 /\ ~ (1 # 2) == 0 /\
+  (exists o, estimate false true ["y"%string] ["y"%string] [("a"%string, Some 1%Z, [1])] (Some (Some ["a"%string], None)) = Some o).
+Proof. repeat split; try (cbn; lia); try discriminate; try (eexists; vm_compute; reflexivity). Qed.
 
 (** non-vacuity of the session statements: a concrete 7-operation session (call, in-place genotype and label update,
     coefficient update, copy, nenv reassignment, call) and its observations *)
